@@ -1,5 +1,7 @@
 #!/bin/bash
 # tools/dev.sh [-x] <funckey>...  : verify functions against /repo's contracts using the IR in /var/tmp/all.json (-x: re-export first)
 export GOFLAGS=-mod=mod GOPROXY=off GOSUMDB=off GOTOOLCHAIN=local PYTHONPATH=/verif/govc/py
-if [ "$1" = "-x" ]; then shift; (cd /verif/govc/export && go run . -dir /repo -tags verif -o /var/tmp/all.json ./... ) || exit 2; fi
-python3-vt -m govc.dev /var/tmp/all.json "$@" 2>&1 | grep -v "^  ok\|^unsat"
+# DEVREPO=<dir>: work on a scratch copy of the repository instead of /repo (IR in /var/tmp/all-dev.json)
+R=${DEVREPO:-/repo}; IR=/var/tmp/all.json; [ "$R" = /repo ] || IR=/var/tmp/all-dev.json
+if [ "$1" = "-x" ] || [ ! -f $IR ]; then [ "$1" = "-x" ] && shift; (cd /verif/govc/export && go run . -dir $R -tags verif -o $IR ./... ) || exit 2; fi
+VERIF_REPO=$R python3-vt -m govc.dev $IR "$@" 2>&1 | grep -v "^  ok\|^unsat"
